@@ -149,8 +149,13 @@ func DoWithContext(ctx Context, actor func(Context)) {
 		defer func() {
 			threadlocal.Set(PuppetContextKey, saveCtx)
 		}()
+	} else if threadlocal.Initialized() {
+		// local storage without a current context: leave it that way
+		defer threadlocal.Delete(PuppetContextKey)
 	} else {
+		// no local storage: the one created here is released when the call ends
 		threadlocal.Init()
+		defer threadlocal.Cleanup()
 	}
 	threadlocal.Set(PuppetContextKey, ctx)
 	actor(ctx)
